@@ -501,6 +501,10 @@ class SSHChannel(Generic[AnyStr], SSHPacketHandler):
                 session = cast(SSHSession[AnyStr], result)
 
             if not self._conn:
+                # The connection was lost while the session was being
+                # created, so let it release what it has already opened
+                session.connection_lost(None)
+
                 raise ChannelOpenError(OPEN_CONNECT_FAILED,
                                        'SSH connection closed')
 
